@@ -106,8 +106,10 @@ pub fn run(args: &Args, out: &mut Out) {
         let fresh: Vec<Option<Vec<String>>> = progs
             .iter()
             .map(|(_, src)| {
+                // … on a thread of its own: whatever a lint keeps per thread starts empty
                 let c: Checker<toml::value::Value> = Checker::new(mk_config(), lib.clone()).unwrap();
-                lint(&c, src)
+                let src = src.clone();
+                std::thread::spawn(move || lint(&c, &src)).join().unwrap_or(None)
             })
             .collect();
         let shared: Arc<Checker<toml::value::Value>> = Arc::new(Checker::new(mk_config(), lib.clone()).unwrap());
